@@ -484,7 +484,8 @@ PROPS["C14"] = _cw4_prop("C14", 2, C14_CLAUSES, "admin, hooks, member list and h
     "weights each `old` is the running weight, the result is the new table, unmentioned addresses are unchanged); cw4-stake "
     "notifies exactly when the weight changed; no other call notifies; only registered addresses are ever told, each at most "
     "once per call (the registry of a reachable state never lists an address twice), and after RemoveHook{x} no call of any "
-    "history that does not register x again tells x anything (c14_removed_hook_silent). Tie to the Rust: S_C14 on every implementation step with "
+    "history that does not register x again tells x anything (c14_removed_hook_silent); the step contract S_C14, all 9 clauses, "
+    "is proved never to fire on the model from a reachable state (c14_contract_never_fires_on_model). Tie to the Rust: S_C14 on every implementation step with "
     "real hook-receiver contracts (and non-contract hooks that make the call roll back) + equality of messages (measured).")
 
 
